@@ -1,6 +1,6 @@
 (* C07 driver for the extracted constraint-kernel model (coq/C07/C07_Model.v), float NumOps.  Stateless:
    one query per stdin line, one result line (floats, %h) per query.
-     B <fn> <kind> <tiny> <npar> par.. <nb> anc(24) body(24)*nb <nlam> lam..      fn = PERR|VERR|AERR|FORCE|FORCEG
+     B <fn> <kind> <tiny> <npar> par.. <nb> anc(24) body(24)*nb <nlam> lam..      fn = PERR|VERR|AERR|FORCE|FORCEG (kinds 0-7), PERR2|VERR2|AERR2|FORCE2|FORCEG2 (contact kinds 13-17)
         a body/ancestor record is X (R row-major 9, p 3), V (w 3, v 3), A (b 3, a 3), all in Ground
      M <fn> <kind> <na> a.. <nb> b.. <nc> c..                                      mobility constraints, see [mob] below *)
 open C07model
@@ -29,6 +29,11 @@ let body fn =
   | "AERR" -> List.iter pf (ev_aerr fops kind tiny par anc bs)
   | "FORCE" -> List.iter psv (ev_force fops kind tiny par anc bs lam)
   | "FORCEG" -> List.iter psv (ev_forceG fops kind tiny par anc bs lam)
+  | "PERR2" -> List.iter pf (ev2_perr fops kind tiny par anc bs)
+  | "VERR2" -> List.iter pf (ev2_verr fops kind tiny par anc bs)
+  | "AERR2" -> List.iter pf (ev2_aerr fops kind tiny par anc bs)
+  | "FORCE2" -> List.iter psv (ev2_force fops kind tiny par anc bs lam)
+  | "FORCEG2" -> List.iter psv (ev2_forceG fops kind tiny par anc bs lam)
   | _ -> print_string "?fn"
 
 (* mobility constraints.  lists a,b,c per (kind,fn):
